@@ -316,7 +316,7 @@ def _rx_bitflip_traces(rng, kind, payloads, sample):
         st.gap()
         for k in range(1, len(good)):
             for b in range(8):
-                if rng.random() > sample:
+                if k < len(good) - 2 and rng.random() > sample:      # CRC bits always, payload bits sampled
                     continue
                 bad = list(good)
                 bad[k] ^= 1 << b
@@ -457,7 +457,7 @@ def check_C02(rep):
     sim_cfg = tlc.render_cfg(_cfg("MCDataRx_sim.cfg.tmpl"),
                              {"BaseBytes": TlaSet([0xC3, 0x4B, 0x87, 0x0F, 0xD2, 0x43, 0xE1, 0x00, 0x01, 0x80, 0xFF]),
                               "MaxLen": 9, "MaxPkts": 5, "StrobeWin": 3, "RfrWin": 24, "MinGap": 14})
-    behs = tlc.simulate(SPEC_DIR, "MCDataRx", sim_cfg, num=25 if quick else 200, depth=160, seed=rep.seed)
+    behs = tlc.simulate(SPEC_DIR, "MCDataRx", sim_cfg, num=25 if quick else 200, depth=160, seed=rep.seed, timeout=1200)
     for b in behs:
         cyc = [dict(st["in"]) for _, st in b[1:]]
         cyc += [{"active": False, "valid": False, "data": 0}] * 30
@@ -736,7 +736,7 @@ def check_C03(rep):
     sim_cfg = tlc.render_cfg(_cfg("MCDataTx_sim.cfg.tmpl"),
                              {"Data": TlaSet([0, 1, 0x80, 0xFF, 0x5A]), "Pids": TlaSet([0, 1, 2, 3]), "MaxLen": 6,
                               "MaxReq": 6, "MaxStall": 3, "ProgWin": 2})
-    behs = tlc.simulate(SPEC_DIR, "MCDataTx", sim_cfg, num=30 if quick else 300, depth=120, seed=rep.seed)
+    behs = tlc.simulate(SPEC_DIR, "MCDataTx", sim_cfg, num=30 if quick else 300, depth=120, seed=rep.seed, timeout=1200)
     for b in behs:
         script, bits = _tx_script_from_behaviour(b)
         if script:
@@ -1043,7 +1043,7 @@ def check_C28(rep):
     sim_cfg = tlc.render_cfg(_cfg("MCOutBoundary_sim.cfg.tmpl"),
                              {"Data": TlaSet([0, 1, 0x80, 0xFF]), "MaxLen": 6, "MaxPkts": 5, "Strobes": TlaSet(["c", "x"]),
                               "OutWin": OB_CONSTS["OutWin"], "StrobeWin": OB_CONSTS["StrobeWin"], "MinGap": OB_CONSTS["MinGap"]})
-    behs = tlc.simulate(SPEC_DIR, "MCOutBoundary", sim_cfg, num=40 if quick else 400, depth=120, seed=rep.seed)
+    behs = tlc.simulate(SPEC_DIR, "MCOutBoundary", sim_cfg, num=40 if quick else 400, depth=120, seed=rep.seed, timeout=1200)
     for b in behs:
         cyc = [{"iv": st["in"]["v"], "inx": st["in"]["n"], "ip": st["in"]["p"], "ic": st["in"]["c"], "ix": st["in"]["x"]}
                for _, st in b[1:]]
@@ -1286,7 +1286,7 @@ def check_C21(rep):
     sim_cfg = tlc.render_cfg(_cfg("MCFrameNum.cfg.tmpl"),
                              {"Frames": TlaSet([0, 1, 2, 0x3FF, 0x400, 0x7FE, 0x7FF]), "CrcFlips": TlaSet([1, 2, 3, 4, 5]),
                               "InitMicros": TlaSet([0]), "MaxSofs": 1000})
-    behs = tlc.simulate(SPEC_DIR, "MCFrameNum", sim_cfg, num=30 if quick else 300, depth=70, seed=rep.seed)
+    behs = tlc.simulate(SPEC_DIR, "MCFrameNum", sim_cfg, num=30 if quick else 300, depth=70, seed=rep.seed, timeout=1200)
     for b in behs:
         events = [{"bytes": list(st["ev"]["bytes"]), "gap_prob": 0.2, "idle": 6} for _, st in b[1:]]
         jobs.append((events, "tlc-simulate", None))
